@@ -14,5 +14,11 @@ meta = {
  'detected': 'VIOLATION' in res,
  'concrete_replay': 'VIOLATION' in res and 'no-failing-input-found' not in res,
 }
+fin = d + '/check_result_final.txt'
+if os.path.exists(fin):
+    r2 = open(fin).read()
+    meta['check_output_after_strengthening'] = [l for l in r2.strip().splitlines() if 'VIOLATION' in l or 'tier=' in l or 'check rc' in l]
+    meta['detected_after_strengthening'] = 'VIOLATION' in r2
+    meta['concrete_replay_after_strengthening'] = 'VIOLATION' in r2 and 'no-failing-input-found' not in r2
 json.dump(meta, open(d + '/meta.json', 'w'), indent=1)
 print(name, 'detected=', meta['detected'], 'concrete=', meta['concrete_replay'])
